@@ -11,6 +11,11 @@ CHECKS = {
    note='Scripted relay restricted to the documented Relay.attempt contract; fake redis (no server in the image) and fake object store with aws.py semantics; gevent FIFO dispatch is platform semantics; real relay classes feeding the queue are covered by C11.',
    technique='stateless deviation-bounded model checking of the real queue on a virtual event loop with quiescent-state merging and a ledger oracle',
    design='5/C01'),
+ 'C03': dict(level='model_checking', engine='E1-vloop',
+   text='Queue world (real Queue on the virtual loop, all four backends) with a scripted relay answering per-recipient mappings {ok,temp,perm}^n over up to 3 rounds, n=1..3 (4 thorough), backoff 0 and 10, bounded relay pool, slow storage operations, and double announcements of an id (start-up load, storage wait() announcements injected by the driver / produced by redis / by the cloud message queue, flush, retry due).  All outcome histories with <= dd non-default outcomes x all schedules with <= d deviations, quiescent states merged.  Monitors on every Relay.attempt: recipients disjoint from the settled set and covering the outstanding set; attempts of one id never overlap.',
+   note='Same fakes as C01; wait() announcements for the dict backend are injected by the driver.',
+   technique='stateless deviation-bounded model checking of the real queue on a virtual event loop with online monitors',
+   design='5/C03'),
  'C05': dict(level='exploration', engine='E2-stategraph',
    text='Exhaustive over every message over {., CR, LF, a} up to length 6 (quick) / 8 (thorough), every split into sender parts, five pipelined suffixes, every recv_buffer/socket division and ALL segmentations (explicit state graph of the real DataReader fed through the real IO.raw_recv). Inside these bounds the property is decided, not sampled.',
    note='Bytes outside the alphabet are assumed to behave like "a" (one 8-bit symbol added in thorough); max_size=None (size limit is C09). "Randomly beyond the bound" is not done (sampling is outside this family).',
